@@ -78,11 +78,29 @@ def small_enough(net, k, limit=15):
 
 
 # ------------------------------------------------------------------ C01
+def near_pattern_formulas(props, rng):
+    """closed formulae in which a binder WITHOUT occurrences of its own variable sits directly above
+    AX {outer} / AG EF {outer} (they look like the shortcut patterns but are not)"""
+    V = lambda v: gen.T("V", v)
+    p = gen.T("P", rng.choice(props))
+    ax, agef = ("U", "AX", V("x")), ("U", "AG", ("U", "EF", V("x")))
+    out = []
+    for body in (ax, agef):
+        vac = ("H", "Bind", "y", None, body)
+        out += [("H", "Exists", "x", None, vac), ("H", "Bind", "x", None, ("U", "EX", vac)),
+                ("H", "Bind", "x", None, ("U", "EF", vac)), ("H", "Forall", "x", None, ("B", "Or", vac, p)),
+                ("H", "Bind", "x", None, ("B", "And", ("H", "Exists", "y", None, body), p))]
+    return out
+
+
 def gen_C01(chk):
     rng = chk.rng
     ws = worlds(chk, n_random=cnt(chk, 12, 40))
     for nm, net in ws:
         props = net_props(net)
+        if len(props) <= 3:
+            for f in near_pattern_formulas(props, rng):
+                chk.add_eval(net, 2, "s", [f], tag="near-pattern", netname=nm)
         # every closed formula with one operator, in batches (mode: sanitised)
         pool = one_op_closed(props)
         if not thorough(chk) and len(pool) > 120:
@@ -192,6 +210,25 @@ def gen_C02(chk):
             ctx = [(l, ctx_spec(rng)) for l in labels]
             chk.add_eval(net, 1, "es", [("B", rng.choice(["Or", "And"]), inner, outer)], ctx=ctx, tag="closed-in-out", netname=nm)
             chk.add_eval(net, 1, "es", [inner, outer], ctx=ctx, tag="closed-in-out-batch", netname=nm)
+        # a one-variable sub-formula cached outside every domain, reused one level deeper below a
+        # restricted quantifier (the renaming of the cached set must not pick up that restriction)
+        for j in range(cnt(chk, 4, 12)):
+            fs = cross_domain_batch(rng, props, True)
+            ctx = [(l, ctx_spec(rng)) for l in labels]
+            if rng.random() < 0.6:
+                a = rng.choice(props)
+                ctx = [("p", "u"), ("d", "f" + gen.hx(rng.choice([a, "~" + a]))), ("e2", ctx_spec(rng))]
+            chk.add_eval(net, 2, "es", fs, ctx=ctx, tag="cross-batch", netname=nm)
+            chk.add_eval(net, 2, "es", [("B", "And", fs[0], fs[1])], ctx=ctx, tag="cross-one", netname=nm)
+        # nested domains whose sets live on disjoint sets of colours (no admissible value for the inner
+        # variable although its domain set is not empty)
+        for j in range(cnt(chk, 3, 8)):
+            sd = rng.randint(1, 10 ** 6)
+            ctx = [("d", "k%d.1.2" % sd), ("e2", "K%d.1.2" % sd), ("p", ctx_spec(rng))]
+            qa, qb = rng.choice(gen.QUANTS), rng.choice(gen.QUANTS)
+            body = ("H", "Jump", "x", None, ("U", rng.choice(["EF", "EX", "AX"]), gen.T("V", "y")))
+            f = ("H", qa, "x", "d", ("H", qb, "y", "e2", body))
+            chk.add_eval(net, 2, "es", [f], ctx=ctx, tag="disjoint-colours", netname=nm)
         # README equivalences for arbitrary bodies, evaluated through the API
         for j in range(cnt(chk, 6, 20)):
             body = gen.random_formula(rng, rng.randint(0, 4), props, scope=["x"], max_vars=2, wilds=("p",))
@@ -242,6 +279,20 @@ def gen_C03(chk):
                   ("B", "EU", p0, core2), ("H", "Exists", "y", None, core), ("B", "AU", gen.T("1"), core)]
             for spec in ["e", "k%d.1.2" % rng.randint(1, 999), "R%d.1.2" % rng.randint(1, 999)]:
                 chk.add_eval(net, 2, "e", fs, ctx=[("d", spec)], tag="emptydom", netname=nm)
+        # a sub-formula with one free variable evaluated below a restricted variable it does not
+        # mention and again outside: the closed result must not read the spare copies
+        for j in range(cnt(chk, 3, 10)):
+            core = gen.random_formula(rng, rng.randint(1, 3), props, scope=["x"], max_vars=1,
+                                      unops=["Not", "EX", "AX", "EF", "AG"], binops=["And", "Or", "EU"])
+            if gen.free_vars(core) != {"x"} or core[0] == "T":
+                core = ("U", "EF", gen.T("V", "x"))
+            inner = ("H", rng.choice(gen.QUANTS), "y", "d", ("H", "Jump", "y", None, core))
+            f = ("H", rng.choice(gen.QUANTS), "x", None, ("B", rng.choice(["And", "Or"]), inner, core))
+            g = ("H", rng.choice(gen.QUANTS), "x", None, core)
+            a = rng.choice(props)
+            spec = rng.choice([ctx_spec(rng), "f" + gen.hx(a), "f" + gen.hx("~" + a)])
+            chk.add_eval(net, 2, "e", [f], ctx=[("d", spec)], tag="foreign-scope", netname=nm)
+            chk.add_eval(net, 2, "e", [f, g], ctx=[("d", spec)], tag="foreign-scope-batch", netname=nm)
         for j in range(cnt(chk, 12, 40)):
             ext = rng.random() < 0.4
             f = gen.random_formula(rng, rng.randint(2, 8), props, max_vars=2,
@@ -346,6 +397,10 @@ def nested_batch(rng, props, ext):
         if rng.random() < 0.5:
             fs.append(("H", qb, "x", None, ("H", qa, "y", "d", body)))
         fs.append(rng.choice([core, ("U", "Not", core), ("H", "Exists", "x", None, ("B", "And", gen.T("V", "x"), core))]))
+        if rng.random() < 0.5:
+            # ... and first OUTSIDE, then directly (or through | only) below a restricted exists / bind
+            bare = ("H", rng.choice(["Exists", "Bind"]), "x", "d", rng.choice([core, ("B", "Or", core, ("U", "EF", gen.T("V", "x")))]))
+            fs = [core, bare] + fs[:1]
         return fs
     for _ in range(rng.randint(2, 4)):
         f = plug_context(rng, props, core, core_var, ext)
@@ -409,7 +464,15 @@ def cross_domain_batch(rng, props, ext):
         core = ("U", "AX", gen.T("V", "x"))
     core_y = subst_vars(core, {"x": "y"})
     da, db = ("d", "e2") if ext else (None, None)
+    if ext and rng.random() < 0.4:
+        db = None          # the shared variable itself is unrestricted, only the other name is restricted
     wrap = lambda v, c: rng.choice([("H", "Jump", v, None, c), ("B", "And", gen.T("V", v), c), c])
+    if ext and rng.random() < 0.3:
+        # the one-variable core first below a restricted variable it does not mention, then outside it
+        inner_scope = ("H", rng.choice(gen.QUANTS), "y", "d", ("H", "Jump", "y", None, core))
+        f = ("H", rng.choice(gen.QUANTS), "x", None, ("B", rng.choice(["And", "Or"]), inner_scope, core))
+        g = ("H", rng.choice(gen.QUANTS), "x", None, core)
+        return [f, g]
     inner = ("H", rng.choice(gen.QUANTS), "x", db, wrap("x", core))
     outer = ("H", rng.choice(gen.QUANTS), "x", da,
              ("H", rng.choice(gen.QUANTS), "y", db, rng.choice([("H", "Jump", "x", None, core_y),
@@ -434,6 +497,10 @@ def gen_C04(chk):
             fs = fs[:4]
             k = max(gen.quant_depth(f) for f in fs)
             ctx = [("p", ctx_spec(rng)), ("d", ctx_spec(rng)), ("e2", ctx_spec(rng))] if ext else []
+            if ext and j % 5 in (1, 4) and rng.random() < 0.5:
+                # domains that are empty for some colours only
+                ctx = [("p", ctx_spec(rng)), ("d", rng.choice(["k%d.1.2", "k%d.1.4", "r%d.1.4"]) % rng.randint(1, 10 ** 6)),
+                       ("e2", ctx_spec(rng))]
             if ext and j % 5 == 3 and rng.random() < 0.7:
                 # the two domains differ a lot (disjoint, or one literal each)
                 a = rng.choice(props)
@@ -785,6 +852,22 @@ def gen_C15(chk):
             for g in group:
                 chk.cases[g]["group"] = group
                 chk.cases[g]["perm"] = (0,)
+
+
+def gen_C15_batches(chk):
+    """batches through the sanitising entry points: position i of the sanitised answer is formula i"""
+    rng = chk.rng
+    ws = worlds(chk, quick_names=gen.SMALL + ["N05"], n_random=cnt(chk, 2, 6), max_n=2)
+    for nm, net in ws:
+        props = net_props(net)
+        for j in range(cnt(chk, 4, 12)):
+            fs = [gen.random_formula(rng, rng.randint(1, 5), props, max_vars=2) for _ in range(rng.randint(2, 4))]
+            d = max(gen.quant_depth(f) for f in fs)
+            for k in (d, d + 1):
+                if len(props) * (1 + k) > 10:
+                    continue
+                for mode in ("s", "", "st", "es"):
+                    chk.add_eval(net, k, mode, fs, tag="batch-" + (mode or "dirty"), netname=nm)
 
 
 # ------------------------------------------------------------------ C18
